@@ -1,10 +1,11 @@
 /- Driver.lean — JSON line protocol: one operation per input line, one JSON answer per output line.
    Imports only core-Lean model files, so it links as a native executable. -/
 import Prs.Driver.Search
+import Prs.Driver.Stats
 open Lean Prs.Drv
 
 def dispatch (op : String) (j : Json) : Option (R Json) :=
-  (opSearch op j)
+  (opSearch op j) <|> (opStats op j)
 
 def step (line : String) : String :=
   match Json.parse line with
